@@ -54,6 +54,8 @@ var c19Vals = []c19Val{
 	{"map2", `{"a": 1, "b": 2}`, `{"a": 1, "b": 3}`, `{"a": 1.0, "b": 2}`},
 	{"map7", `{"a": 1, "b": 2, "c": 3, "d": 4, "e": 5, "f": 6, "g": 7}`, `{"a": 9, "b": 2, "c": 3, "d": 4, "e": 5, "f": 6, "g": 7}`, `{"a": 1.0, "b": 2, "c": 3, "d": 4, "e": 5, "f": 6, "g": 7}`},
 	{"func", "x => x + 1", "x => x + 2", ""},
+	{"poszero", "0.0", "1.5", "(-0.0)"},                                                           // -0.0 == 0.0 but 1/X tells them apart
+	{"closure", "(n => (x => x + n))(1)", "(n => (x => x + n))(2)", "(n => (x => x + n))(3 - 2)"}, // same text, other captured value
 }
 
 // attempt templates: X is the constant, V a different value, S the same literal, Q a numerically equal value of another type.
@@ -89,6 +91,19 @@ func c19Run(inputs []string, name string, noReg bool) (errs []bool, changed stri
 		return nil, "constant not readable after its binding: " + outStr(init)
 	}
 	ss.eval("func rd_c19() {"+name+"}", time.Second)
+	// what a function valued constant does, and the sign of a zero, are part of its value
+	behaviour := func() string {
+		switch v := init.val.(type) {
+		case *gt.Fn:
+			return outStr(ss.eval(name+"(10)", time.Second))
+		case float64:
+			if v == 0 {
+				return outStr(ss.eval("1 / "+name, time.Second))
+			}
+		}
+		return ""
+	}
+	b0 := behaviour()
 	for k, in := range inputs[1:] {
 		o := ss.eval(in, 3*time.Second)
 		errs = append(errs, o.isErr || o.panicked != "")
@@ -98,6 +113,9 @@ func c19Run(inputs []string, name string, noReg bool) (errs []bool, changed stri
 		now := ss.eval(name, time.Second)
 		if now.isErr || !gt.Same(init.val, now.val) {
 			return errs, fmt.Sprintf("after attempt %d %q the constant reads %s, it was bound to %s", k+1, in, outStr(now), valStr(init.val))
+		}
+		if b := behaviour(); b != b0 {
+			return errs, fmt.Sprintf("after attempt %d %q the constant behaves differently: %s, before %s", k+1, in, b, b0)
 		}
 		inside := ss.eval("rd_c19()", time.Second)
 		if inside.isErr || !gt.Same(init.val, inside.val) {
